@@ -127,7 +127,7 @@ class Problem(Exception):
     pass
 
 
-LABEL_KINDS = ["int", "int", "float-frac", "neg", "str", "float-whole"]
+LABEL_KINDS = ["int", "int", "float-frac", "neg", "str", "float-whole", "int8-wide", "int16-wide"]
 
 
 def enc(p, key):
@@ -143,6 +143,11 @@ def enc(p, key):
         vals = [7 * c - 10 for c in codes]              # negative, non-contiguous integers
     elif kind == "str":
         vals = ["g%02d" % c for c in codes]
+    elif kind == "int8-wide" and all(0 <= c <= 9 for c in codes):
+        # labels spread over the whole range of a narrow signed type: differences of adjacent labels overflow in that type
+        return POOL.get("lab-" + key, [25 * c - 120 for c in codes], np.int8)
+    elif kind == "int16-wide" and all(0 <= c <= 9 for c in codes):
+        return POOL.get("lab-" + key, [7000 * c - 32000 for c in codes], np.int16)
     else:
         vals = list(codes)
     return POOL.get("lab-" + key, vals)
@@ -158,6 +163,10 @@ def dec(p, a):
             out.append(int(round((v + 10) / 7)))
         elif kind == "str":
             out.append(int(v[1:]))
+        elif kind == "int8-wide" and (int(v) + 120) % 25 == 0:
+            out.append((int(v) + 120) // 25)
+        elif kind == "int16-wide" and (int(v) + 32000) % 7000 == 0:
+            out.append((int(v) + 32000) // 7000)
         else:
             out.append(int(v))
     return out
@@ -977,7 +986,26 @@ def run_recorded(ctx, names, per_fn, site_prefix="", presets=None):
                 det.update({"issue": "generator used differently from the model: " + str(ex)})
                 ctx.violation("correspondence", det, site=fn.site, no_input=True); continue
             ops.append(fn.op(p, draws)); meta.append((fn, p, r[1], seen, det))
+            if gkind == "sha" and ctx.rng.random() < 0.3:
+                # the plain integer (or NumPy integer) seed must give exactly what the generator object SHA256(seed) gave
+                r_int, _ = fn.call(p, gseed if ctx.rng.random() < 0.7 else np.int64(gseed))
+                ctx.count("int-seed-vs-generator-object")
+                if r_int[0] != "ok" or not _same_result(r_int[1], r[1]):
+                    d2 = dict(det); d2.update({"issue": "the integer seed gives another result than a fresh SHA256 generator with that seed (the model replays the latter)",
+                                               "int_seed": str(r_int)[:300], "generator_object": str(r)[:300]})
+                    ctx.violation("oracle", d2, site=fn.site)
     return ops, meta
+
+
+def _same_result(a, b):
+    if isinstance(a, (tuple, list)) and isinstance(b, (tuple, list)):
+        return len(a) == len(b) and all(_same_result(x, y) for x, y in zip(a, b))
+    if a is None or b is None:
+        return a is b
+    try:
+        return bool(np.array_equal(np.asarray(a, dtype=float), np.asarray(b, dtype=float), equal_nan=True))
+    except (TypeError, ValueError):
+        return bool(np.array_equal(np.asarray(a, dtype=object), np.asarray(b, dtype=object)))
 
 
 def compare_recorded(ctx, ops, meta, outs, block):
